@@ -59,13 +59,24 @@ func damaged(kind, fresh, other, pkg string) string {
 		return strings.TrimRight(fresh, "\n")
 	case "longer":
 		return fresh + strings.Repeat("\n// trailing line that a full rewrite must remove\nfunc leftover() {}\n", 1) + strings.Repeat("// padding\n", 40)
-	case "empty":
-		return hdr
-	case "nopkgclause":
-		return hdr + "import (\n\t\"fmt\"\n"
+	// Every damaged file keeps a package clause.  Without one the go command
+	// itself behaves in two ways: read directly (directory modified within the
+	// last two seconds) the file is skipped for its constraint, read through
+	// the package index (older directories) it is a parse error of the
+	// package - so the outcome of a later wire command would depend on how
+	// long the previous step took.  That is the toolchain's business, not
+	// Wire's, and it would make the check time-dependent.
+	case "empty", "nopkgclause":
+		return hdr + "package " + pkg + "\n"
 	case "shorter":
-		if len(fresh) > 80 {
-			return fresh[:len(fresh)/2]
+		cut := len(fresh) / 2
+		if i := strings.Index(fresh, "\npackage "); i >= 0 {
+			if j := strings.Index(fresh[i+1:], "\n"); j >= 0 && cut < i+1+j+1 {
+				cut = i + 1 + j + 1
+			}
+		}
+		if len(fresh) > 80 && cut < len(fresh) {
+			return fresh[:cut]
 		}
 		return hdr + "package " + pkg + "\n"
 	}
